@@ -106,6 +106,8 @@ class Obs:
                         raise ValueError("Unsorted idx for idl[%s]" % (name))
                     self.idl[name] = idx
                 elif isinstance(idx, (list, np.ndarray)):
+                    if np.asarray(idx).dtype.kind not in 'iu':
+                        raise TypeError('idl[%s] has to contain integer configuration numbers.' % (name))
                     if np.asarray(idx).dtype.kind == 'u' or (np.asarray(idx).dtype.kind == 'i' and np.asarray(idx).dtype.itemsize < 8):
                         idx = np.asarray(idx).astype(np.int64)
                     dc = np.unique(np.diff(idx))
